@@ -293,6 +293,12 @@ def gen_roundtrip(seed, tier, focus):
             cfg["size"] = size = max(56, ch.pick("config", "c04-size", [2 * segk_, 3 * segk_ + 1, 5 * segk_ - 1, 7 * segk_, 4 * segk_ + k]))
         if min(nservers, n) < happy and ch.chance("config", "c04-happy", 0.8):
             cfg["happy"] = happy = min(nservers, n)
+    if focus == "C01" and ch.chance("config", "second-file", 0.35):
+        # a second, different file stored and read by the same process afterwards: same segment size, another length and/or
+        # another k (whatever one download remembers must not leak into the next)
+        cfg["second"] = {"size": max(56, ch.pick("config", "second-size", [size + 1, size + seg, size - 1, 2 * size + 3, size + 3 * max(1, seg) + 1, max(56, size // 2)])),
+                         "k": ch.pick("config", "second-k", [k, k, max(1, k - 1), min(n, k + 1)]),
+                         "pat": ch.randint("config", "second-pat", 1, 1 << 30)}
     ops = []
     nreads = ch.randint("workload", "nreads", 1, 4) if focus in ("C04",) else ch.randint("workload", "nreads", 1, 2)
     esize = max(size, 1)
@@ -483,6 +489,30 @@ def exec_roundtrip(case):
                 bad("C04", "leftover-requests", "download node still holds %d segment requests at quiescence" % len(dn._segment_requests))
             if getattr(dn, "_active_segment", None) is not None:
                 bad("C04", "leftover-active", "download node still has an active segment at quiescence")
+        if cfg.get("second"):
+            sec = cfg["second"]
+            effseg_ = effective_segsize(cfg, len(data))
+            # keep the real segment size of the first file: the second file's segment size is min(max_seg, size) rounded up to k2
+            c2b = g.add_client(k=sec["k"], happy=1, n=cfg["n"], segsize=effseg_, convergence=conv_secret("A"))
+            data2 = pat_bytes(sec["pat"], sec["size"])
+            st6, r6 = run(c2b.upload(Data(data2, convergence=None)))
+            if st6 == "ok":
+                rd2 = g.add_client(k=3, happy=1, n=10)
+                for (off2, sz2) in ((0, None), (max(0, sec["size"] - 7), None)):
+                    cons2 = RecConsumer("second")
+                    st7, r7 = run(rd2.create_node_from_uri(r6.get_uri()).read(cons2, off2, sz2))
+                    want2 = data2[off2:]
+                    if st7 != "ok":
+                        bad("C01", "read-failed", "a second file (%d bytes, k=%d, segment size %d) read after the first (%d bytes, k=%d) in the same process failed: %s" % (
+                            sec["size"], sec["k"], effseg_, len(data), cfg["k"], r7.getTraceback()[-500:] if st7 == "err" else st7),
+                            sig="C0x.read-failed.second-file." + (err_name(r7) if st7 == "err" else st7))
+                    elif cons2.data() != want2:
+                        bad("C01", "bytes", "a second file read after the first in the same process: got %d bytes, expected %d; first difference at %s" % (
+                            len(cons2.data()), len(want2), first_diff(cons2.data(), want2)))
+                    else:
+                        probe("second-file-read-ok")
+            else:
+                probe("second-file-upload-" + st6)
         # --- C05: same data again, other client / other grid order / other chunking
         if focus == "C05":
             c3 = g.add_client(k=cfg["k"], happy=cfg["happy"], n=cfg["n"], segsize=cfg["seg"], convergence=conv_secret("A"))
